@@ -36,6 +36,14 @@ fn c02_all(ctx: &mut ctx::Ctx) -> ctx::R {
     }
 }
 
+fn c17_all(ctx: &mut ctx::Ctx) -> ctx::R {
+    if ctx.sub == 2 {
+        scen_redirect::c17_depth(ctx)
+    } else {
+        scen_req::c17(ctx)
+    }
+}
+
 fn props() -> Vec<Prop> {
     vec![
         Prop {
@@ -167,12 +175,12 @@ fn props() -> Vec<Prop> {
         Prop {
             id: "C17",
             scenario: "head-validity",
-            run: scen_req::c17,
+            run: c17_all,
             quick: 80_000,
             thorough: 2_000_000,
-            subs: &["classes"],
+            subs: &["classes", "classes", "redirected"],
             level: "exploration",
-            rule: "schedule-free: validity-biased generator (a valid request plus 0..2 mutations: version 0.9/2/3, 1.1-only method on 1.0, second Host, Content-Length variants incl. negative / non-numeric / non-UTF-8 / duplicate, Transfer-Encoding variants, despite-method, API constructor) classified by an independent reference; 4 write attempts with different buffers each; every run is non-trivial; distinct = (api, class, attempt results)",
+            rule: "schedule-free: validity-biased generator (a valid request plus 0..2 mutations: version 0.9/2/3, 1.1-only method on 1.0, second Host, Content-Length variants incl. negative / non-numeric / non-UTF-8 / duplicate, Transfer-Encoding variants, despite-method, API constructor) classified by an independent reference; 4 write attempts with different buffers each; a third sub-batch plays redirect chains and lets the caller amend the redirected (body-less) request with duplicate / non-numeric / negative Content-Length, a Content-Length or Transfer-Encoding: chunked on the body-less method, or two Host headers: four write attempts must each be refused; every run is non-trivial; distinct = (api, class, attempt results)",
             assumptions: &[A_COMMON, "DontCare (not decided by the statement): non-textual Host, Transfer-Encoding other than chunked, Content-Length '+5' or beyond u64, without-body constructor with a framing header on a body method"],
             cells_total: scen_req::C17_CELLS,
             cells_what: "(api: flow / with_body / without_body) x (validity class reached)",
